@@ -14,7 +14,7 @@
 (* answers equal the bare answers (Invisible) and Len(cache) <= Cap.       *)
 (*                                                                         *)
 (* StoreConf (generated): Keys, NoneKeys, NPaths, Cap, CacheAbsent,        *)
-(* StoreKind, MaxOps, GenMode, SyncSets.                                   *)
+(* StoreKind, MaxOps, GenMode, SyncSets, SyncAbsent.                                   *)
 (***************************************************************************)
 EXTENDS Naturals, Sequences, FiniteSets, TLC, Json, StoreConf
 
@@ -69,10 +69,12 @@ FetchBlob(k) ==
                     ELSE IF CacheAbsent \/ k \in blobs THEN Put(cache, k, b) ELSE cache
   /\ UNCHANGED <<blobs, paths>>
 
-(* a commit: a non-empty map over at most two paths, keys already stored     *)
+(* a commit: a non-empty map over at most two paths.  With SyncAbsent a path may also be committed   *)
+(* to a key whose blob is not stored (dds does so for a keep in a branch that is not executed);     *)
+(* the DBFS store with a full commit cannot (it copies the blob), its contract runs have it off.    *)
 SyncPaths(m) ==
   /\ CanOp
-  /\ \A p \in DOMAIN m : m[p] \in blobs
+  /\ SyncAbsent \/ \A p \in DOMAIN m : m[p] \in blobs
   /\ paths' = [p \in PathIds |-> IF p \in DOMAIN m THEN m[p] ELSE paths[p]]
   /\ Record("sync", {<<p, m[p]>> : p \in DOMAIN m}, <<"ok">>, <<"ok">>)
   /\ UNCHANGED <<blobs, cache>>
